@@ -152,6 +152,7 @@ impl RK4 {
             if (x + 1.01 * h - xend) * h.signum() > 0.0 {
                 h = xend - x;
                 last = true;
+                #[cfg(ivp_verif)] crate::verif_trace::emit("dp_land", 1.0);
             }
 
             // Stage computations
@@ -180,6 +181,7 @@ impl RK4 {
             }
             // Keep f(xold, yold) for the Hermite interpolant before k1 is refreshed
             cont[n..2 * n].copy_from_slice(&k1);
+            #[cfg(ivp_verif)] crate::verif_trace::emit("dp_acc", (steps.accepted + 1) as f64);
             f.ode(x, &y, &mut k1);
 
             evals.ode += 4;
